@@ -1415,7 +1415,9 @@ impl CodegenContext {
         // If there is only a 'default' segment, assign it to the first bank we have (if not yet assigned)
         if self.segments.len() == 1 {
             let segment = self.segments.values_mut().next().unwrap();
-            segment.options_mut().bank = Some(self.banks.keys().next().unwrap().clone());
+            if segment.options().bank.is_none() {
+                segment.options_mut().bank = Some(self.banks.keys().next().unwrap().clone());
+            }
         }
 
         // Check if all segments now have a bank
